@@ -2,6 +2,8 @@ package main
 
 import (
 	"encoding/json"
+	"fmt"
+	"strings"
 	"sync/atomic"
 
 	"verif/harness"
@@ -156,16 +158,46 @@ func checkC15(r *harness.Run) harness.Coverage {
 		lefts := []string{"sort_by(a, &k)", "sort_by(a, &t)", "sort(b)", "reverse(b)", "reverse(a)", "max_by(a, &k)", "min_by(a, &k)", "map(&k, a)", "a[*].k", "a[?k == `2`]", "a[?k]", "b[?@ > `1`]", "to_array(b)", "keys(b)", "values(b)",
 			"not_null(a, b)", "a[::-1]", "b[1:]", "[a, b]", "merge(b, b)", "a[].t", "sort_by(a, &k)[*].t", "reverse(sort_by(a, &k))"}
 		rights := []string{"[0]", "[-1]", "[1]", "[-2]", "[*]", "[]", "[?@]", "[::-1]", "[:1]", "[-1:]", "length(@)", "[0].t", "[-1].t", "[*].t", "max_by(@, &t)", "reverse(@)", "[0] || `9`", "@", "[?t > `0`] | [0]", "sort(@)", "max(@)", "min(@)"}
-		for _, a := range lefts {
+		// (1c) pumped stages: one construct repeated k times (nested or in a row) on either side of the pipe; k from
+		// the fixed size list plus the integer literals of the current tree and their neighbours
+		kmax := 600
+		if r.Thorough() {
+			kmax = 2100
+		}
+		ks := pumpKs(kmax)
+		var pumpedStages []string
+		for _, e := range append(pumpExprs(pumpCore, ks), pumpExprs(pumpProj[:8], ks)...) {
+			pumpedStages = append(pumpedStages, e.text)
+		}
+		r.Note("pumped_pipe_stages", len(pumpedStages))
+		nIdiomL, nIdiomR := len(lefts), len(rights)
+		lefts = append(lefts, pumpedStages...)
+		rights = append(rights, pumpedStages...)
+		for ai, a := range lefts {
 			jpA, cerrA, pnA := impl.Compile(a)
 			if cerrA != nil || pnA != nil {
 				continue
 			}
-			for _, b := range rights {
+			for bi, b := range rights {
+				if ai >= nIdiomL && bi >= nIdiomR {
+					break // pumped x pumped is not needed: every pumped stage meets every idiom on the other side
+				}
+				if ai < nIdiomL && bi >= nIdiomR && ai%6 != 0 {
+					continue // pumped right-hand stages after every 6th idiom (and after every pumped stage's own base below)
+				}
+				if ai >= nIdiomL && bi%5 != 0 {
+					continue
+				}
 				text := a + " | " + b
 				jpAB, cerr, pn := impl.Compile(text)
 				jpB, cerrB, pnB := impl.Compile(b)
-				if pn != nil || cerr != nil || pnB != nil || cerrB != nil {
+				if pnB != nil || cerrB != nil {
+					continue
+				}
+				if pn != nil || cerr != nil {
+					// both stages compile on their own, so their composition is a sentence too
+					r.Report(harness.Violation{Kind: "rejected-grammatical", Signature: "pipe-law-compile:" + shorten(text, 80),
+						Input: map[string]interface{}{"expression": shorten(text, 300), "A": shorten(a, 150), "B": shorten(b, 150), "bytes": len(text)}, Expected: "A and B compile, so \"A | B\" compiles", Observed: fmt.Sprint(cerr, pn)})
 					continue
 				}
 				for _, d := range idiomDocs {
@@ -280,6 +312,34 @@ func checkC15(r *harness.Run) harness.Coverage {
 			}
 		}
 	})
+	// ---- (2b) numerals at the edge of float64 precision: a field holding the number and the literal spelling the
+	// same digits are the same value in every context (an implementation that keeps big literals in another Go
+	// type - json.Number, big.Int, int64 - must make every consumer understand that type)
+	{
+		nums := []string{"12345678901234567000", "9007199254740993", "18446744073709551616", "-9223372036854775809", "9223372036854775807", "100000000000000000000", "1e19", "1.5e300", "-0", "0.1", "123456789012345678", "4611686018427387904"}
+		ctxs := []string{"HOLE", "[HOLE] == [a]", "contains(b, HOLE)", "abs(HOLE)", "type(HOLE)", "max([HOLE, `1`])", "{x: HOLE} == {x: a}", "HOLE == a", "[HOLE][0] == a", "to_string(HOLE) == to_string(a)", "sum([HOLE])",
+			"HOLE > `1`", "a <= HOLE", "sort([HOLE, `2`])", "not_null(HOLE)", "to_number(HOLE) == a", "ceil(HOLE) == ceil(a)", "avg([HOLE, HOLE]) == a", "min_by([{k: HOLE}, {k: `1`}], &k)", "[HOLE, a] | [0] == [1]", "contains([HOLE], a)", "contains([[HOLE]], [a])", "{x: [HOLE]} == {x: [a]}", "to_array(HOLE)[0] == a", "HOLE != a", "!HOLE", "HOLE || 'f'", "join(',', [to_string(HOLE)])", "map(&abs(@), [HOLE])", "b == [HOLE, `1`]", "merge({x: HOLE}, {y: a})"}
+		for _, n := range nums {
+			var doc interface{}
+			json.Unmarshal([]byte(`{"a": `+n+`, "b": [`+n+`, 1]}`), &doc)
+			for _, cx := range ctxs {
+				withField := strings.Replace(cx, "HOLE", "a", -1)
+				withLit := strings.Replace(cx, "HOLE", "`"+n+"`", -1)
+				r1, e1, p1 := impl.SearchOnce(withField, model.Copy(doc))
+				r2, e2, p2 := impl.SearchOnce(withLit, model.Copy(doc))
+				rtCases++
+				if p1 != nil || p2 != nil {
+					continue
+				}
+				if !implSame(r1, e1, r2, e2) {
+					r.Report(harness.Violation{Kind: "wrong-value", Signature: "transparency-big-numeral:" + cx,
+						Input:    map[string]interface{}{"context": cx, "numeral": n, "document": doc, "with_field": withField, "with_literal": withLit},
+						Expected: "the field a and the literal `" + n + "` are the same value, so both spellings give the same result", Observed: withField + " = " + showRes(r1, e1) + " but " + withLit + " = " + showRes(r2, e2)})
+					break
+				}
+			}
+		}
+	}
 	r.Evaluations = pairs + rtCases
 	r.Traces = pairs + rtCases
 	r.States = pairs + rtCases
